@@ -82,6 +82,7 @@ func (pnf *PageNumberFinder) FindPagination(root *html.Node, pageURL *nurl.URL) 
 
 	url := *pageURL
 	url.User = nil // the parameter detector drops the user info as well
+	url.Host = stringutil.ToLowerASCII(url.Host)
 	// A fragment is not part of the address of the page. The detection works on
 	// URL strings that are parsed with ParseRequestURI, which would take the
 	// fragment for the end of the path or of the query.
@@ -212,7 +213,7 @@ func (pnf *PageNumberFinder) getPageInfoAndText(link *html.Node, pageURL *nurl.U
 	if !isEmptyHref && !isJavascriptLink {
 		hrefURL, err = nurl.ParseRequestURI(linkHref)
 		// (host names are compared ignoring the letter case)
-		if err != nil || !strings.EqualFold(hrefURL.Host, pageURL.Host) ||
+		if err != nil || stringutil.ToLowerASCII(hrefURL.Host) != stringutil.ToLowerASCII(pageURL.Host) ||
 			(hrefURL.Scheme != "http" && hrefURL.Scheme != "https") {
 			return nil, ""
 		}
@@ -222,6 +223,9 @@ func (pnf *PageNumberFinder) getPageInfoAndText(link *html.Node, pageURL *nurl.U
 		if err != nil {
 			return nil, ""
 		}
+
+		// The URLs are compared as strings from here on
+		hrefURL.Host = stringutil.ToLowerASCII(hrefURL.Host)
 
 		// Keep the encoded form of the path: with the reserved characters in
 		// it decoded (%2F, %3F, %25 ...) the URL names another resource.
